@@ -177,6 +177,11 @@ def sites_of(body, tnt):
                 if T.C in ib or T.L in cb:
                     ec, ei = body.operand_expr(args[0]), body.operand_expr(args[1])
                     yield Site(body, bb, "index", "%s[%s]" % (show(ec), show(ei)), (ec, ei))
+            elif name in ("split_at", "split_at_mut") and q.startswith("str::") and len(args) == 2:
+                # a str is cut at a BYTE index: besides mid <= len the index must be a char boundary - a length guard proves nothing
+                if T.C in tnt.op_bits(body, args[0]) or T.L in tnt.op_bits(body, args[0]) or T.C in tnt.op_bits(body, args[1]):
+                    yield Site(body, bb, "str:split_at", "%s(%s)" % (name, ", ".join(show(body.operand_expr(a)) for a in args)),
+                               tuple(body.operand_expr(a) for a in args))
             elif name in ("split_at", "split_at_mut", "copy_from_slice", "clone_from_slice", "remove", "swap_remove", "drain", "split_off",
                           "swap", "insert", "chunks", "chunks_exact", "windows", "rotate_left", "rotate_right") and args:
                 if q.startswith("std::mem::"):
@@ -195,6 +200,16 @@ def discharge(site, facts=None):
     """Return a reason string if the site is provably safe by local guard reasoning, else None."""
     body, bb = site.body, site.bb
     k = site.kind
+    if k == "str:split_at":
+        s_, mid = site.operands
+        pm = peel(mid, through_try=False)
+        if pm.k == "const" and pm.v == 0:
+            return "cut at 0"
+        for f in facts_at(body, bb):
+            if f[0] in ("Bool", "BoolVal") and f[2] is True and f[1] is not None and (getattr(f[1], "q", None) or "").split("::")[-1] == "is_char_boundary" \
+                    and len(f[1].args or []) == 2 and same_expr(f[1].args[1], mid):
+                return "behind is_char_boundary(mid)"
+        return None
     if k == "overflow:Sub":
         a, b = site.operands
         if known_ge(body, bb, a, b):
